@@ -63,4 +63,55 @@ def decrypt {G : Type} (Γ : Group G) (kdf : G → Nat → Label) (A : G) (n : N
     let ct := data.getD idx (0#128, 0#128)
     (if bits idx then ct.2 else ct.1) ^^^ mask
 
+/-! ### The same functions over bare operations (executable instances)
+
+`Group` carries proofs of the group laws, which nobody can supply for the
+concrete P-256 arithmetic executed by the driver.  `Ops` is the operations
+without the laws; the `…O` functions below are what the driver executes on
+P-256 (Model/CoBytes.lean) and what the C06 theorems are stated about (at
+`Γ.ops` for an arbitrary `Γ : Group G`).  They follow /repo HEAD, where
+`EncryptCOCiphertexts` also rejects an off-curve `AaInv` (68f93f2) and
+`DecryptCOCiphertexts` an off-curve `A` (0e7671a); the older `encrypt`/
+`decrypt` above are kept unchanged for Model/Sha2pcRounds.lean, which does
+those checks itself. -/
+
+structure Ops (G : Type) where
+  add : G → G → G
+  neg : G → G
+  zero : G
+  smul : Nat → G → G
+
+def Group.ops {G : Type} (Γ : Group G) : Ops G :=
+  { add := Γ.add, neg := Γ.neg, zero := Γ.zero, smul := Γ.smul }
+
+/-- `GenerateCOSenderSetup` for the sampled scalar `a`. -/
+def senderSetupO {G : Type} (O : Ops G) (g : G) (a : Nat) : SenderSetup G :=
+  { a := a, A := O.smul a g, AaInv := O.neg (O.smul a (O.smul a g)) }
+
+/-- One point of `BuildCOChoices`. -/
+def choicePointO {G : Type} (O : Ops G) (g A : G) (b : Nat) (bit : Bool) : G :=
+  if bit then O.add (O.smul b g) A else O.smul b g
+
+/-- `EncryptCOCiphertexts` (HEAD): `none` = `ErrPointNotOnCurve` for `A`,
+`AaInv` or one of the receiver's points. -/
+def encryptO {G : Type} (O : Ops G) (valid : G → Bool) (kdf : G → Nat → Label) (s : SenderSetup G)
+    (n : Nat) (points : Nat → G) (wires : Nat → Wire) : Option (List Wire) :=
+  if !valid s.A then none
+  else if !valid s.AaInv then none
+  else if (List.range n).any (fun i => !valid (points i)) then none
+  else some <| (List.range n).map fun idx =>
+    let B := O.smul s.a (points idx)
+    let Ba := O.add B s.AaInv
+    (kdf B idx ^^^ (wires idx).1, kdf Ba idx ^^^ (wires idx).2)
+
+/-- `DecryptCOCiphertexts` (HEAD): `none` = `ErrPointNotOnCurve` for `A` (the
+count checks of the Go function are the fixed `n` here). -/
+def decryptO {G : Type} (O : Ops G) (valid : G → Bool) (kdf : G → Nat → Label) (A : G) (n : Nat)
+    (scalars : Nat → Nat) (bits : Nat → Bool) (data : List Wire) : Option (List Label) :=
+  if !valid A then none
+  else some <| (List.range n).map fun idx =>
+    let mask := kdf (O.smul (scalars idx) A) idx
+    let ct := data.getD idx (0#128, 0#128)
+    (if bits idx then ct.2 else ct.1) ^^^ mask
+
 end Mpc.Co
